@@ -470,6 +470,34 @@ pub fn mutate(r: &mut Rng, w: &World, op: &mut Op) {
         Some(b) => b,
         None => return,
     };
+    if r.chance(7) {
+        // structural malformations of the JSON itself
+        if let Some(o) = body.as_object_mut() {
+            let keys: Vec<String> = o.keys().cloned().collect();
+            if !keys.is_empty() {
+                let k = r.pick(&keys).clone();
+                match r.below(4) {
+                    0 => {
+                        o.remove(&k);
+                    }
+                    1 => {
+                        if o.contains_key("size") {
+                            o.insert("size".into(), json!("0"));
+                        }
+                    }
+                    2 => {
+                        if o.contains_key("size") {
+                            o.insert("size".into(), json!(5));
+                        }
+                    }
+                    _ => {
+                        o.insert(k, Value::Null);
+                    }
+                }
+            }
+        }
+        return;
+    }
     let which = r.below(14);
     match kind.as_str() {
         "create_ask" => match which {
